@@ -63,7 +63,12 @@ struct Setup {
 }
 
 fn build(facts: FactSet) -> Result<Setup, String> {
-    let ont = crate::drive::via_builder(&facts, None, false).map_err(|e| e.to_string())?;
+    // obsolete flags can only be carried by the binary / text paths
+    let ont = if facts.terms.iter().any(|t| t.obsolete) {
+        crate::drive::via_bytes(&facts, 3).1.map_err(|e| e.to_string())?
+    } else {
+        crate::drive::via_builder(&facts, None, false).map_err(|e| e.to_string())?
+    };
     let model = Model::new(&facts, false);
     Ok(Setup { facts, ont, model })
 }
@@ -211,7 +216,7 @@ impl Monitor for C06 {
         v
     }
     fn mandatory_buckets(&self, _tier: Tier) -> Vec<String> {
-        ["tuples", "population_above_factorial_table", "population_within_factorial_table", "monotonicity_pairs", "background/whole", "background/subcollection", "lattice_points"]
+        ["tuples", "ontology_with_obsolete_terms", "population_above_factorial_table", "population_within_factorial_table", "monotonicity_pairs", "background/whole", "background/subcollection", "lattice_points"]
             .iter()
             .map(|s| (*s).to_string())
             .collect()
@@ -326,7 +331,17 @@ impl Monitor for C06 {
                     },
                 };
                 let nested = parts[0] == "rnd" && rng.chance(1, 2);
-                let f = gen_setup(&mut rng, n_terms, nested, if n_terms > 400 { 4 } else { 8 });
+                let mut f = gen_setup(&mut rng, n_terms, nested, if n_terms > 400 { 4 } else { 8 });
+                // a quarter of the random ontologies carry obsolete terms (which are ordinary members of
+                // backgrounds and samples); needs HP:1 and HP:118 because it goes through the v3 decoder
+                if parts[0] == "rnd" && n_terms >= 118 && rng.chance(1, 2) {
+                    for t in &mut f.terms {
+                        if t.id != 1 && t.id != 118 && rng.chance(1, 5) {
+                            t.obsolete = true;
+                        }
+                    }
+                    out.bucket("ontology_with_obsolete_terms");
+                }
                 let s = match build(f) {
                     Ok(s) => s,
                     Err(e) => {
